@@ -258,7 +258,38 @@ pub fn exec(f: u32, a: &Args) -> Args {
     }
 }
 
+/// C17 on the readers: a WebTransport signal / stream type followed by a complete varint v is
+/// accepted exactly when v names a client-initiated bidirectional stream (v mod 4 = 0), for every
+/// v up to 2^62-1, and the session id returned is v
+fn session_id_oracle(first: u64, bytes: &[u64], out: &Args) -> Option<(&'static str, String)> {
+    let vi = |b: &[u64]| -> Option<(u64, usize)> {
+        let f0 = *b.first()?;
+        let n = 1usize << (f0 >> 6);
+        if b.len() < n { return None; }
+        let mut v = f0 & 0x3f;
+        for x in &b[1..n] { v = v << 8 | *x; }
+        Some((v, n))
+    };
+    let (t, l) = vi(bytes)?;
+    if t != first { return None; }
+    let (v, _) = vi(&bytes[l..])?;
+    if v % 4 == 0 {
+        if out[0][0] != 1 || out[1][0] != 3 || out[1][2] != 1 || out[1][3] != v {
+            return Some(("C17", format!("valid session id {} after 0x{:x} was not accepted as such: {:?}", v, first, out)));
+        }
+    } else if out[0][0] != 2 {
+        return Some(("C17", format!("session id {} does not name a client-initiated bidirectional stream but was not refused: {:?}", v, out)));
+    }
+    None
+}
+
 pub fn oracle(f: u32, a: &Args, out: &Args) -> Option<(&'static str, String)> {
+    if f == 201 || (f == 203 && a[2][0] == 0) {
+        if let Some(x) = session_id_oracle(0x41, &a[0], out) { return Some(x); }
+    }
+    if f == 251 || (f == 253 && a[2][0] == 0) {
+        if let Some(x) = session_id_oracle(0x54, &a[0], out) { return Some(x); }
+    }
     match f {
         201 | 202 | 203 => {
             // C11: returned values respect their invariants
@@ -277,7 +308,7 @@ pub fn oracle(f: u32, a: &Args, out: &Args) -> Option<(&'static str, String)> {
             }
             if f == 203 {
                 if let Some(m) = async_oracle(f, a, out) {
-                    return Some(("C15", m));
+                    return Some((seg_label(&m), m));
                 }
                 // three paths agree on (value | error class, bytes consumed) when the source ends with FIN
                 if a[2][0] == 0 {
@@ -352,12 +383,12 @@ pub fn oracle(f: u32, a: &Args, out: &Args) -> Option<(&'static str, String)> {
             }
             if f == 253 {
                 if let Some(m) = async_oracle(f, a, out) {
-                    return Some(("C15", m));
+                    return Some((seg_label(&m), m));
                 }
             }
             None
         }
-        207 | 208 => async_oracle(f, a, out).map(|m| ("C15", m)),
+        207 | 208 => async_oracle(f, a, out).map(|m| (seg_label(&m), m)),
         209 => {
             let mut expect = b2a(&enc(a[0][0]));
             expect.extend(&a[1]);
@@ -368,6 +399,11 @@ pub fn oracle(f: u32, a: &Args, out: &Args) -> Option<(&'static str, String)> {
         }
         _ => None,
     }
+}
+
+/// dependence of the outcome on how the bytes were cut is also what C05 excludes for the control plane
+fn seg_label(m: &str) -> &'static str {
+    if m.starts_with("outcome depends on chunking") { "C15+C05" } else { "C15" }
 }
 
 /// C15 on one async call: (a) the end-of-stream error distinguishes 'nothing read' from
@@ -425,7 +461,7 @@ pub fn unknown_ids(rng: &mut Rng) -> Vec<u64> {
     v
 }
 pub fn session_ids(rng: &mut Rng) -> Vec<u64> {
-    let mut v = vec![0u64, 4, 60, 64, 16380, 16384, (1 << 30) - 4, 1 << 30, MAXV - 3];
+    let mut v = vec![0u64, 4, 60, 64, 16380, 16384, (1 << 30) - 4, 1 << 30, (1 << 60) - 4, 1 << 60, (1 << 60) + 4, (1 << 61) + 8, MAXV - 3];
     v.push(rng.varint() & !3);
     v
 }
